@@ -54,7 +54,7 @@ def class_vectors(n, classes, with_other=True):
 def unwindset(n, exact=False, dynamic=False, extra=None, ncalls=1, nblk=2, avail=64):
     """per-loop bounds derived from the concrete sizes of the query"""
     u = {
-        "write_bits.0": 17,
+        "dfl_get_lit_code.0": 17,
         "wmemset.0": 18,
         "reset_match_history.0": 3,
         "reset_match_history.1": 2,
